@@ -5,4 +5,6 @@ cd "$(dirname "$0")"
 mkdir -p build evidence
 for t in cbmc goto-cc goto-instrument clang++ g++ python3-vt z3; do command -v $t >/dev/null || { echo "missing tool $t"; exit 1; }; done
 python3-vt -c "import sympy, z3, mpmath"
+# real libraries for native replays (incremental afterwards); a failure here only disables native replays, the checks still run
+python3-vt -c "import sys; sys.path.insert(0, '.'); from vlib import native; native.libs()" > build/setup_native.log 2>&1 || echo 'note: native library build failed (see build/setup_native.log)'
 echo setup ok
